@@ -427,6 +427,19 @@ func c08Stores(c *Ctx, p *Prog, m *Model) {
 					if isBuiltinCall(x, "delete") || isBuiltinCall(x, "clear") {
 						probs = append(probs, fmt.Sprintf("delete/clear at %s", p.Pos(instrPos(x))))
 					}
+					// an atomic write to a field of a logger, writer set or any other object that outlives the call: state that
+					// one record leaves behind for the records of other goroutines (a "busy"/"reporting" flag, a counter)
+					if cal := calleeOf(x); cal != nil && cal.Pkg != nil && cal.Pkg.Pkg.Path() == "sync/atomic" {
+						if n := cal.Name(); strings.HasPrefix(n, "Store") || strings.HasPrefix(n, "Swap") || strings.HasPrefix(n, "Add") || strings.HasPrefix(n, "CompareAndSwap") || strings.HasPrefix(n, "And") || strings.HasPrefix(n, "Or") {
+							if len(x.Common().Args) > 0 {
+								if fa, isFA := x.Common().Args[0].(*ssa.FieldAddr); isFA {
+									if _, isAlloc := stripNoIface(fa.X).(*ssa.Alloc); !isAlloc && typeName(fa.X.Type()) != "PrintCtx" {
+										probs = append(probs, fmt.Sprintf("writes %s.%s atomically at %s: a flag or counter kept in an object shared by all goroutines changes what concurrent records do", typeName(fa.X.Type()), nm(structOf(fa.X.Type()).Field(fa.Field)), p.Pos(instrPos(x))))
+									}
+								}
+							}
+						}
+					}
 					// a slice view of a package-level array handed to a callee: the callee (runtime.Callers, copy, Read, an
 					// Append-style formatter) fills memory that every goroutine's records share
 					if _, isB := x.Common().Value.(*ssa.Builtin); !isB || isBuiltinCall(x, "copy") {
@@ -727,6 +740,26 @@ func c08Pools(c *Ctx, p *Prog, m *Model) {
 			continue
 		}
 		var probs []string
+		// one Put per Get on every path: a slice put back twice sits in the pool twice, and two later records that
+		// overlap in time then collect their attributes into the same backing array
+		isPoolPut := func(in ssa.Instruction) bool {
+			cs, ok := in.(ssa.CallInstruction)
+			if !ok {
+				return false
+			}
+			if cal := calleeOf(cs); cal != nil {
+				if release[cal] {
+					return true
+				}
+				if cal.String() == "(*sync.Pool).Put" && len(cs.Common().Args) > 0 && cs.Common().Args[0] == ssa.Value(pa) {
+					return true
+				}
+			}
+			return false
+		}
+		if _, hi := countOnPaths(fn, isPoolPut); hi > 1 || hi == -1 {
+			probs = append(probs, "on some path the attribute slice is put back into the pool more than once")
+		}
 		for _, s := range m.Sites[fn] {
 			if after(put, s) {
 				probs = append(probs, "the record is emitted after the attribute slice went back to the pool")
@@ -772,6 +805,36 @@ func c08Pools(c *Ctx, p *Prog, m *Model) {
 					}
 				}
 				r.Bad("R08.3", "escape:"+shortName(fn), p.Pos(instrPos(st)), "the pooled formatting context is stored somewhere that outlives the call: another goroutine may format into it")
+			}
+		}
+	}
+	// ... and is not handed to an object the logger holds for all its records (a shared value stringer, a hook): the
+	// object would write into it while another record of the same logger hands in its own
+	for _, fn := range p.RepoFuncs() {
+		for _, cs := range callsIn(fn) {
+			if !cs.Common().IsInvoke() {
+				continue
+			}
+			shared := false
+			for _, sv := range sources(cs.Common().Value) {
+				if base, _, f, ok := fieldLoad(sv); ok {
+					tn := typeName(base.Type())
+					if tn == "Entry" || (tn == "PrintCtx" && nm(f) == "valueStringer") {
+						shared = true
+					}
+				}
+			}
+			if !shared {
+				continue
+			}
+			for _, a := range cs.Common().Args {
+				v := a
+				if mi, ok := v.(*ssa.MakeInterface); ok {
+					v = mi.X
+				}
+				if typeName(v.Type()) == "PrintCtx" {
+					r.Bad("R08.3", "escape:"+shortName(fn)+":"+invokeName(cs), p.Pos(instrPos(cs)), "the pooled formatting context of this record is handed to %s of an object the logger keeps for all its records: two records of that logger formatted at the same time write their values into each other's buffer", invokeName(cs))
+				}
 			}
 		}
 	}
